@@ -55,6 +55,8 @@ def norm(m, view="C07"):
     out = {"ok": True, "vars": vs, "eqs": eqs}
     if view == "C07":
         out["ieqs"] = [list(e) for e in m.get("ieqs", [])]
+        # which leaves have a declaration equation / unconnected-flow equation (their right sides: C08)
+        out["bound"] = [e[0][1] for e in m["eqs"] if a05.is_sym_eq(e)]
     return out
 
 
@@ -132,7 +134,8 @@ def check_case(ctx, case, drv, stream="main"):
         if model != o:
             what = "status" if model["ok"] != o["ok"] else (
                 "variables" if model["vars"] != o["vars"] else
-                "equations" if model["eqs"] != o["eqs"] else "initial-equations")
+                "equations" if model["eqs"] != o["eqs"] else
+                "initial-equations" if model["ieqs"] != o["ieqs"] else "declaration-equations")
             ctx.disagreement("flatten:" + what, rep, model, o)
         ctx.count("model-" + ("ok" if model["ok"] else "rejects"))
     return obs
@@ -153,8 +156,8 @@ def run(ctx):
         ctx.count("corpus")
         ctx.case({"lib": c["lib"], "target": c["target"]}, nontrivial=True)
         check_case(ctx, dict(lib=c["lib"], target=c["target"]), drv, "corpus")
-    n_main = 200 if quick else 3500
-    n_find = 15 if quick else 400
+    n_main = 170 if quick else 3500
+    n_find = 12 if quick else 400
     done_main = done_find = 0
     tries = 0
     while done_main < n_main and tries < 20 * n_main:
